@@ -70,7 +70,9 @@ def finalize(tier, merged):
         "alterations_tls": int(merged.get("a_alterations", 0)),
         "alterations_initial_packets": int(merged.get("d_alterations:ClientHello", 0) + merged.get("d_alterations:ServerHello", 0)),
         "handshake_configurations": int(merged.get("c_agreement_evaluated", 0) + merged.get("c_mustfail_evaluated", 0)),
-        "exhaustive": "byte positions x masks of the recorded messages of the 10 TLS-level configurations" if merged.get("a_alterations", 0) else False,
+        # quick: every 3rd byte with 3 masks, thorough: every byte with 9 masks — a sweep of positions, not of the input space
+        "exhaustive": False,
+        "alteration_sweep_scope": "byte positions x masks of the recorded messages of the 10 TLS-level configurations" if merged.get("a_alterations", 0) else "none",
     }
 
 
